@@ -2,35 +2,36 @@
 # tools/confirm_seed.sh <Cxx> [<name>] : confirm a sub-agent's seeded change in its scratch worktree
 # (suite passes with the change, demo fails with it and passes without), then keep it under seeded/<name>/.
 id="$1"; name="${2:-$id-agent1}"
-wt=/tmp/seed/$id; out=/tmp/seed/out/$id
+base=${SEEDBASE:-/tmp/seed}; wt=$base/$id; out=$base/out/$id
 cd /verif
 [ -f "$out/patch.diff" ] && [ -f "$out/demo.py" ] || { echo "$id: deliverables missing"; exit 1; }
 git -C "$wt" checkout -q -- . ; git -C "$wt" stash clear 2>/dev/null
 [ -f "$wt/src/stationeers_pytrapic/_version.py" ] || cp /repo/src/stationeers_pytrapic/_version.py "$wt/src/stationeers_pytrapic/_version.py"
 export PYTHONPATH="$wt/src" PYTHONDONTWRITEBYTECODE=1
-( cd "$wt" && timeout 300 /venv/bin/python "$out/demo.py" >/tmp/seed/out/$id/demo_clean.log 2>&1 ); clean=$?
+( cd "$wt" && timeout 300 /venv/bin/python "$out/demo.py" >$out/demo_clean.log 2>&1 ); clean=$?
 git -C "$wt" apply "$out/patch.diff" || { echo "$id: patch does not apply"; exit 1; }
-( cd "$wt" && timeout 300 /venv/bin/python "$out/demo.py" >/tmp/seed/out/$id/demo_patched.log 2>&1 ); patched=$?
-( cd "$wt" && /venv/bin/python -m pytest -q -p no:cacheprovider --timeout=900 test 2>&1 | tail -3 >/tmp/seed/out/$id/suite.log ); 
-suite=$(grep -c "passed" /tmp/seed/out/$id/suite.log); failed=$(grep -c "failed" /tmp/seed/out/$id/suite.log)
-echo "$id: demo clean exit=$clean patched exit=$patched suite: $(tail -1 /tmp/seed/out/$id/suite.log)"
+( cd "$wt" && timeout 300 /venv/bin/python "$out/demo.py" >$out/demo_patched.log 2>&1 ); patched=$?
+( cd "$wt" && /venv/bin/python -m pytest -q -p no:cacheprovider --timeout=900 test 2>&1 | tail -3 >$out/suite.log ); 
+suite=$(grep -c "passed" $out/suite.log); failed=$(grep -c "failed" $out/suite.log)
+echo "$id: demo clean exit=$clean patched exit=$patched suite: $(tail -1 $out/suite.log)"
 if [ "$clean" = 0 ] && [ "$patched" = 1 ] && [ "$failed" = 0 ] && [ "$suite" -ge 1 ]; then
   mkdir -p seeded/$name
   cp "$out/patch.diff" "$out/demo.py" seeded/$name/
   [ -f "$out/notes.md" ] && cp "$out/notes.md" seeded/$name/
   python3 - "$id" "$name" <<PY
-import json, sys
+import json, sys, os
+base = os.environ.get("SEEDBASE", "/tmp/seed")
 pid, name = sys.argv[1], sys.argv[2]
-notes = open(f"/tmp/seed/out/{pid}/notes.md").read() if __import__("os").path.exists(f"/tmp/seed/out/{pid}/notes.md") else ""
+notes = open(f"{base}/out/{pid}/notes.md").read() if __import__("os").path.exists(f"{base}/out/{pid}/notes.md") else ""
 json.dump({"breaks_property": pid, "source": "independent sub-agent given only the property text and a scratch worktree",
            "needs_to_manifest": "see notes.md",
-           "confirmed": {"suite_with_patch": open(f"/tmp/seed/out/{pid}/suite.log").read().strip().splitlines()[-1],
+           "confirmed": {"suite_with_patch": open(f"{base}/out/{pid}/suite.log").read().strip().splitlines()[-1],
                          "demo_on_clean_tree_exit": 0, "demo_with_patch_exit": 1,
                          "how": "tools/confirm_seed.sh in a scratch worktree of /repo (PYTHONPATH=<worktree>/src)"},
            "detected_by": "filled in by tools/run_seeded.py"}, open(f"/verif/seeded/{name}/meta.json", "w"), indent=1)
 PY
   echo "$id: kept as seeded/$name"
 else
-  echo "$id: NOT confirmed"; tail -5 /tmp/seed/out/$id/demo_clean.log /tmp/seed/out/$id/demo_patched.log
+  echo "$id: NOT confirmed"; tail -5 $out/demo_clean.log $out/demo_patched.log
 fi
 git -C "$wt" checkout -q -- .
